@@ -33,7 +33,7 @@ def gen(rng, count, tier):
                 params['max_tasks_active'] = rng.choice([1, 2, 4])
             calls.append({'kind': rng.choice(['map', 'map_unordered', 'imap', 'imap_unordered']), 'n': n, 'input': 'list',
                           'elem': 'scalar', 'params': params, 'base': 1000 * (j + 1)})
-        scens.append({'id': f'o{k}', 'pool': pool, 'calls': calls, 'budget': 90})
+        scens.append({'id': f'o{k}', 'pool': pool, 'calls': calls, 'budget': 60})
     return scens
 
 
